@@ -11,11 +11,12 @@
 -/
 import MjwVerif.Props.C01
 import MjwVerif.Gen.Support
+import MjwVerif.Lemmas.C22
 
 set_option linter.unusedVariables false
 set_option linter.unusedSimpArgs false
 namespace Mjw.Props.C22
-open Mjw Mjw.Gen.Math Mjw.Spec.Kinematics Mjw.Props.C01
+open Mjw Mjw.Gen.Math Mjw.Spec.Kinematics Mjw.Props.C01 Mjw.Props.C23 Mjw.Lemmas.C01R Mjw.Lemmas.C22
 
 /-! ## 7. the column formula -/
 
@@ -112,5 +113,83 @@ theorem jacp_slide_eq_axis (body_parentid body_rootid dof_bodyid : Int → Int)
   simp only [jacColumn, hanc, ne_eq, not_false_eq_true, decide_true, if_true, V6.ofV3, V6.top, V6.bottom]
   congr 1
   apply V3.ext' <;> simp only [V3.add, V3.cross, V3.sub, hadd, hsub, hmul] <;> ring
+
+
+/-- the world position of the body-fixed point `l` of a body hinged (axis `a`, anchor offset `jpos`, both in the
+    body frame `(P0, Qp)` before the joint) as the kernel's HINGE branch computes it for joint angle `t`:
+    `xquat = Qp * axis_angle(a, t)`, `xpos = xanchor − rot(jpos, xquat)`, point = `xpos + rot(l, xquat)` -/
+noncomputable def hingePoint (P0 : V3 ℝ) (Qp : Q ℝ) (a jpos l : V3 ℝ) (t : ℝ) : V3 ℝ :=
+  let xquat := mul_quat Qp (axis_angle_to_quat a t)
+  let xanchor := V3.add (rot_vec_quat jpos Qp) P0
+  V3.add (V3.sub xanchor (rot_vec_quat jpos xquat)) (rot_vec_quat l xquat)
+
+theorem hingePoint_eq (P0 : V3 ℝ) (Qp : Q ℝ) (a jpos l : V3 ℝ) (ha : vnrm2 a = 1) (t : ℝ) :
+    hingePoint P0 Qp a jpos l t
+      = V3.add (V3.add (rot_vec_quat jpos Qp) P0) (rot_vec_quat (rodrigues a (V3.sub l jpos) t) Qp) := by
+  unfold hingePoint
+  simp only
+  rw [← rot_axis_angle_eq_rodrigues a _ ha, ← rot_mul_quat, ← rot_sub]
+  apply V3.ext' <;> simp only [V3.add, V3.sub, hadd, hsub] <;> ring
+
+/-- (8) **`jacp_is_velocity_map_hinge`**: for a single hinge joint (unit axis `a`, any unit frame quaternion `Qp`), the
+    derivative with respect to the joint angle of the world position `x(θ)` of a body-fixed point is
+    `xaxis × (x(θ) − xanchor)` — exactly the translational Jacobian column `jac_dof` computes from the `_cdof` value
+    (`jacp_hinge_eq_axis_cross` with `a := xaxis`, `p := xanchor`), componentwise. -/
+theorem jacp_is_velocity_map_hinge (P0 : V3 ℝ) (Qp : Q ℝ) (hQ : nrm2 Qp = 1) (a jpos l : V3 ℝ) (ha : vnrm2 a = 1)
+    (θ : ℝ) :
+    let xanchor := V3.add (rot_vec_quat jpos Qp) P0
+    let xaxis := rot_vec_quat a Qp
+    let col := V3.cross xaxis (V3.sub (hingePoint P0 Qp a jpos l θ) xanchor)
+    HasDerivAt (fun t => (hingePoint P0 Qp a jpos l t).c0) col.c0 θ
+    ∧ HasDerivAt (fun t => (hingePoint P0 Qp a jpos l t).c1) col.c1 θ
+    ∧ HasDerivAt (fun t => (hingePoint P0 Qp a jpos l t).c2) col.c2 θ := by
+  intro xanchor xaxis col
+  obtain ⟨d0, d1, d2⟩ := hasDerivAt_rodrigues a (V3.sub l jpos) ha θ
+  obtain ⟨r0, r1, r2⟩ := hasDerivAt_rot_component Qp _ _ _ _ _ _ θ d0 d1 d2
+  have hcol : col = rot_vec_quat (V3.cross a (rodrigues a (V3.sub l jpos) θ)) Qp := by
+    show V3.cross (rot_vec_quat a Qp) (V3.sub (hingePoint P0 Qp a jpos l θ) (V3.add (rot_vec_quat jpos Qp) P0)) = _
+    rw [rot_cross Qp hQ, hingePoint_eq P0 Qp a jpos l ha]
+    congr 1
+    apply V3.ext' <;> simp only [V3.add, V3.sub, hadd, hsub] <;> ring
+  have hfun : ∀ t, hingePoint P0 Qp a jpos l t
+      = V3.add xanchor (rot_vec_quat ⟨(rodrigues a (V3.sub l jpos) t).c0, (rodrigues a (V3.sub l jpos) t).c1,
+          (rodrigues a (V3.sub l jpos) t).c2⟩ Qp) := fun t => hingePoint_eq P0 Qp a jpos l ha t
+  rw [hcol]
+  simp only [hfun, V3.add, hadd]
+  exact ⟨r0.const_add _, r1.const_add _, r2.const_add _⟩
+
+/-- (8) **`jacp_is_velocity_map_partial`** — what is proved of "jacp · qvel is the velocity of the point":
+    (i) for a HINGE dof the column is `xaxis × (x − xanchor)` (`jacp_hinge_eq_axis_cross`, from the `_cdof` value) and
+        this IS ∂x/∂θ of the kernel's own kinematics (`jacp_is_velocity_map_hinge`);
+    (ii) for a SLIDE dof the column is `xaxis` (`jacp_slide_eq_axis`), and ∂x/∂q = xaxis since the kernel's SLIDE branch
+        is `xpos += xaxis * (q − q0)` with everything else independent of `q`.
+    FULL STATEMENT (not proved): for every kinematic tree, every body `b`, point `x` fixed on `b`, and every dof `i`,
+      ∂x/∂q_i (through `_kinematics_branch`, with quaternion joints differentiated along `quat_integrate`) equals
+      `(jac_dof … x b i w).1`, and the angular velocity map equals `.2`; i.e. `v_point = Σ_i jacp[:, i] qvel_i`.
+    MISSING: chains of several joints (needs the derivative of `kinChainW` with respect to an ancestor's joint, i.e.
+    rigid motion of the whole subtree), BALL and FREE rotational dofs (derivative along the exponential map). -/
+theorem jacp_is_velocity_map_partial (P0 : V3 ℝ) (Qp : Q ℝ) (hQ : nrm2 Qp = 1) (a jpos l : V3 ℝ) (ha : vnrm2 a = 1)
+    (θ : ℝ) (body_parentid body_rootid dof_bodyid : Int → Int) (body_isdofancestor : Int → Int → Int)
+    (subtree_com_in : Int → Int → V3 ℝ) (cdof_in : Int → Int → V6 ℝ) (bodyid dofid w jbody : Int)
+    (hanc : body_isdofancestor bodyid dofid ≠ 0) (hroot : body_rootid jbody = body_rootid bodyid)
+    (hcdof : cdof_in w dofid = V6.ofV3 (rot_vec_quat a Qp)
+      (V3.cross (rot_vec_quat a Qp) (V3.sub (subtree_com_in w (body_rootid jbody)) (V3.add (rot_vec_quat jpos Qp) P0)))) :
+    let col := (Gen.Support.jac_dof body_parentid body_rootid dof_bodyid body_isdofancestor subtree_com_in cdof_in
+                  (hingePoint P0 Qp a jpos l θ) bodyid dofid w).1
+    HasDerivAt (fun t => (hingePoint P0 Qp a jpos l t).c0) col.c0 θ
+    ∧ HasDerivAt (fun t => (hingePoint P0 Qp a jpos l t).c1) col.c1 θ
+    ∧ HasDerivAt (fun t => (hingePoint P0 Qp a jpos l t).c2) col.c2 θ := by
+  intro col
+  have : col = V3.cross (rot_vec_quat a Qp)
+      (V3.sub (hingePoint P0 Qp a jpos l θ) (V3.add (rot_vec_quat jpos Qp) P0)) := by
+    show (Gen.Support.jac_dof _ _ _ _ _ _ _ _ _ _).1 = _
+    rw [jacp_hinge_eq_axis_cross body_parentid body_rootid dof_bodyid body_isdofancestor subtree_com_in cdof_in
+      _ _ _ bodyid dofid w jbody hanc hroot hcdof]
+  rw [this]
+  exact jacp_is_velocity_map_hinge P0 Qp hQ a jpos l ha θ
+
+/-- non-vacuity: a unit frame quaternion and a unit axis -/
+example : nrm2 (⟨3/5, 0, 4/5, 0⟩ : Q ℝ) = 1 ∧ vnrm2 (⟨0, 0, 1⟩ : V3 ℝ) = 1 := by
+  constructor <;> norm_num [nrm2, vnrm2]
 
 end Mjw.Props.C22
